@@ -33,6 +33,9 @@ TStep ==
               \cup (IF \E i \in 1..NC : newly[i] /\ ~(e.c[i].tlo \in {"gt", "eq"} /\ e.c[i].thi \in {"lt", "eq"}) THEN {"C19:time-inside-step"} ELSE {})
               \cup (IF \E i \in 1..NC : newly[i] /\ ~prevHolds[i] /\ e.c[i].ti # "eq" THEN {"C19:time-is-interpolant"} ELSE {})
               \cup (IF \E i \in 1..NC : latched[i] /\ ~e.c[i].tsame THEN {"C19:time-frozen-once-met"} ELSE {})
+              \cup (IF \E i \in 1..NC : ~lat1[i] /\ ~e.c[i].tneg THEN {"C19:time=-1-until-met"} ELSE {})
+              \cup (IF \E i \in 1..NC : "reported" \in DOMAIN e.c[i] /\ ~(e.c[i].reported /\ (lat1[i] \/ e.c[i].repneg))
+                      THEN {"C19:calculator-reports-satisfied-time-or--1"} ELSE {})
               \cup (IF stop /\ ~e.last THEN {"C19:stops-when-met"} ELSE {})
               \cup (IF e.last /\ ~stop /\ ~e.atEnd THEN {"C19:stops-only-when-met"} ELSE {})
               \cup (IF ~stop /\ e.last /\ e.atEnd /\ ~e.callEnd THEN {"C19:runs-to-end"} ELSE {})
